@@ -18,7 +18,7 @@ import struct
 
 from vlib import core, corr
 
-DEPENDS = ["Timers", "TimersP", "TimersFull", "TimersFullSpec", "TimersFullP", "C09Consts", "Base", "Tok", "C09"]
+DEPENDS = ["Timers", "TimersP", "TimersFull", "TimersFullSpec", "TimersFullP", "TimersFullLink", "Recovery", "RecBase", "C09Consts", "Base", "Tok", "C09"]
 GENERATORS = ["c09_consts"]
 TRUSTED_BASE = [
     "extraction (ExtrOcamlBasic only; Z kept inductive) + coq/extract/driver.ml for running coq/model/Timers.v",
